@@ -9,6 +9,11 @@ from .ghosts import GH, era_table, COIN, DOC_INITIAL_SUBSIDY_COIN, DOC_HALVING_I
 LM = ContractSet()
 
 
+def CLS_(name):
+    from pyvc import CLS
+    return CLS(name)
+
+
 def _st():
     return State()
 
@@ -288,3 +293,223 @@ def c04_fork_choice(v):
     v.oblige(post, v.spec_bool(
         "implies(k0 in cs.block_by_hash and not (k0 in cs.heads), child[k0] in cs.block_by_hash and PREV(child[k0]) == k0)", post),
         "C04:lemma:non-tips-have-a-stored-child", "statement clause 2 (<=), with the ghost witness")
+
+
+# ---------------------------------------------------------------------------------------------------- ghost definitions
+
+@LM.lemma("ghost.spent_in", props=["C02", "C03"])
+def ghost_spent_in(v):
+    """Induction over the prefix length n for the witness form of spent_in used as an axiom by its callers:
+       spent_in(r, s, n)  ==>  exists k < n with s[k].output_reference == r      (witness function defined alongside).
+    Base and step are discharged here from the two defining equations only; the induction principle is the meta-step."""
+    from pyvc import CLS, LIST
+    from pyvc.types import to_sort
+    reg = v.reg
+    RefS = to_sort(CLS('OutputReference'), reg)
+    InS = to_sort(LIST(CLS('Input')), reg)
+    Inp = reg.classes['Input']
+    f = z3.Function('spent_in_', RefS, InS, z3.IntSort(), z3.BoolSort())
+    w = z3.Function('wit_', RefS, InS, z3.IntSort(), z3.IntSort())
+    r = z3.Const('r', RefS)
+    s = z3.Const('s', InS)
+    n = z3.Int('n')
+    ref = lambda k: Inp.acc['output_reference'](s[k])
+    # definitions (the witness is defined by the same recursion)
+    defs = [z3.Not(f(r, s, 0)),
+            z3.Implies(z3.And(n >= 0, n < z3.Length(s)), f(r, s, n + 1) == z3.Or(f(r, s, n), ref(n) == r)),
+            z3.Implies(z3.And(n >= 0, n < z3.Length(s)), w(r, s, n + 1) == z3.If(ref(n) == r, n, w(r, s, n)))]
+    P = lambda m: z3.Implies(f(r, s, m), z3.And(0 <= w(r, s, m), w(r, s, m) < m, ref(w(r, s, m)) == r))
+    st = State()
+    for d in defs:
+        st.assume(d)
+    v.oblige(st, P(z3.IntVal(0)), "ghost:spent_in:witness:base", "n = 0")
+    st2 = st.fork()
+    st2.assume(z3.And(n >= 0, n < z3.Length(s)))
+    st2.assume(P(n))
+    v.oblige(st2, P(n + 1), "ghost:spent_in:witness:step", "n -> n + 1")
+
+
+# ---------------------------------------------------------------------------------------------------- C02
+
+NN_TEXT = "every(OutputReference, lambda r: implies(r in %s, %s[r].value >= 0))"
+NOTSPENT = "all(all(x.output_reference != %s for x in txs[1 + j].inputs) for j in range(%s))"
+FEES = "sum(get_transaction_fee(txs[1 + j], U0) for j in range(%s))"
+
+
+def _c02_setup(v):
+    """symbolic initial unspent set U0 and transaction list txs of a block, with what full validation establishes about
+    them (distinct references, references in U0, values in range), A-FRESH and non-negative values in U0"""
+    from pyvc import CLS, LIST, MAP
+    st = _lemma_state(v, 'skepticoin.consensus')
+    U0 = v.fresh('U0', MAP(CLS('OutputReference'), CLS('Output')))
+    txs = v.fresh('txs', LIST(CLS('Transaction')))
+    st.frame.vars.update(U0=U0, txs=txs)
+    st.assume(v.spec_bool("len(txs) >= 1", st))
+    H = {
+        'distinct': "all(all(all(all((a2 == a and b2 == b) or txs[1 + a].inputs[b].output_reference != txs[1 + a2].inputs[b2].output_reference"
+                    " for b2 in range(len(txs[1 + a2].inputs))) for a2 in range(len(txs) - 1))"
+                    " for b in range(len(txs[1 + a].inputs))) for a in range(len(txs) - 1))",
+        'refs-in-U0': "all(all(x.output_reference in U0 for x in txs[1 + a].inputs) for a in range(len(txs) - 1))",
+        'fresh': "every(OutputReference, lambda r: implies(r in U0, all(t.hash() != r.hash for t in txs)))",
+        'U0-nonneg': NN_TEXT % ("U0", "U0"),
+        'outs-nonneg': "all(all(o.value >= 0 for o in t.outputs) for t in txs)",
+    }
+    for text in H.values():
+        st.assume(v.spec_bool(text, st))
+    return st, U0, txs
+
+
+@LM.lemma("C02.apply-block-total", props=["C02"])
+def c02_apply_block_total(v):
+    """Induction over the transactions of a block: after the reward and the first i other transactions,
+       (a) every value in the set is >= 0,
+       (b) every output of U0 not spent by those i transactions is still there unchanged,
+       (c) total <= total(U0) + reward outputs - fees of those i transactions (fees measured in U0).
+    Base and step are discharged from the verified contract of uto_apply_transaction."""
+    UT = "skepticoin.balances.uto_apply_transaction"
+    # ---------------- base: the reward transaction
+    st, U0, txs = _c02_setup(v)
+    st.frame.vars['M0'] = v.spec_value("G.uto_prefix(U0, txs, 0)", st)
+    st.assume(v.spec_bool("G.uto_tx_ok(U0, txs[0], True)", st))
+    assert v.use_contract(st, UT, unspent_transaction_outs=U0, transaction=v.spec_value("txs[0]", st), is_coinbase=True)
+    r1 = v.fresh('r1', CLS_('OutputReference'))
+    st.frame.vars['r1'] = r1
+    v.oblige(st, v.spec_bool("implies(r1 in M0, M0[r1].value >= 0)", st), "C02:lemma:base:a-nonneg", "values >= 0 after the reward")
+    v.oblige(st, v.spec_bool("implies(r1 in U0, r1 in M0 and same(M0[r1], U0[r1]))", st), "C02:lemma:base:b-kept",
+             "outputs of U0 survive the reward transaction (A-FRESH)")
+    v.oblige(st, v.spec_bool("G.total(M0) <= G.total(U0) + sum(o.value for o in txs[0].outputs) - %s" % (FEES % "0"), st),
+             "C02:lemma:base:c-total", "total after the reward")
+    # ---------------- step: transaction t = txs[1 + i]; every sub-step names its premises (pyvc.proof)
+    from pyvc.proof import Proof
+    st, U0, txs = _c02_setup(v)
+    P = Proof(v, st, "C02:lemma:step:")
+    for name, text in [
+        ('len', "len(txs) >= 1"),
+        ('distinct', "all(all(all(all((a2 == a and b2 == b) or txs[1 + a].inputs[b].output_reference != txs[1 + a2].inputs[b2].output_reference"
+                     " for b2 in range(len(txs[1 + a2].inputs))) for a2 in range(len(txs) - 1))"
+                     " for b in range(len(txs[1 + a].inputs))) for a in range(len(txs) - 1))"),
+        ('refs-in-U0', "all(all(x.output_reference in U0 for x in txs[1 + a].inputs) for a in range(len(txs) - 1))"),
+        ('fresh', "every(OutputReference, lambda r: implies(r in U0, all(t.hash() != r.hash for t in txs)))"),
+        ('outs-nonneg', "all(all(o.value >= 0 for o in t.outputs) for t in txs)"),
+    ]:
+        P.assume(name, text)
+    P.fresh('i', INT)
+    P.assume('i-range', "0 <= i < len(txs) - 1")
+    Mi = P.let('Mi', "G.uto_prefix(U0, txs, i)")
+    P.let('Mn', "G.uto_prefix(U0, txs, i + 1)")
+    t = P.let('t', "txs[1 + i]")
+    P.assume('ok', "G.uto_tx_ok(Mi, t, False)")
+    # induction hypothesis
+    P.assume('ih-a', NN_TEXT % ("Mi", "Mi"))
+    P.assume('ih-b', "every(OutputReference, lambda r: implies(r in U0 and %s, r in Mi and same(Mi[r], U0[r])))" % (NOTSPENT % ("r", "i")))
+    P.assume('ih-c', "G.total(Mi) <= G.total(U0) + sum(o.value for o in txs[0].outputs) - %s" % (FEES % "i"))
+    P.have('t-outs-nonneg', "all(o.value >= 0 for o in t.outputs)", using=['outs-nonneg', 'i-range', 'len'])
+    assert P.use('tx', UT, unspent_transaction_outs=Mi, transaction=t, is_coinbase=False)
+    TX_DOM, TX_VAL, TX_NN, TX_TOTAL, TX_INS = ['tx[%d]' % k for k in range(5)]
+    # (a) values stay >= 0
+    Pa = P.fork()
+    r1 = Pa.fresh('r1', CLS_('OutputReference'))
+    Pa.inst('nn@r1', TX_NN, r1)
+    Pa.have('a-nonneg', "implies(r1 in Mn, Mn[r1].value >= 0)", using=['nn@r1', 'i-range'])
+    # (b) an arbitrary r1 of U0 not spent by the first i + 1 transactions is still there, unchanged
+    Pb = P.fork()
+    r1 = Pb.fresh('r1', CLS_('OutputReference'))
+    Pb.assume('r1-in-U0', "r1 in U0")
+    Pb.assume('ns-next', NOTSPENT % ("r1", "i + 1"))
+    Pb.have('b-not-spent-before', NOTSPENT % ("r1", "i"), using=['ns-next', 'i-range'])
+    Pb.have('b-not-spent-by-t', "all(x.output_reference != r1 for x in t.inputs)", using=['ns-next', 'i-range'])
+    Pb.assume('wit', "G.spent_in_witness(r1, t.inputs, len(t.inputs))")
+    Pb.have('b-not-in-spent-prefix', "not G.spent_in(r1, t.inputs, len(t.inputs))", using=['wit', 'b-not-spent-by-t'])
+    Pb.have('b-not-created-by-t', "t.hash() != r1.hash", using=['fresh', 'r1-in-U0', 'i-range', 'len'])
+    Pb.inst('ih-b@r1', 'ih-b', r1)
+    Pb.inst('dom@r1', TX_DOM, r1)
+    Pb.inst('val@r1', TX_VAL, r1)
+    Pb.have('b-kept', "r1 in Mn and same(Mn[r1], U0[r1])",
+            using=['ih-b@r1', 'r1-in-U0', 'b-not-spent-before', 'dom@r1', 'val@r1', 'b-not-in-spent-prefix', 'b-not-created-by-t', 'i-range'])
+    # (c) the inputs of t refer to the same outputs in Mi as in U0, so t's fee is the one validation computed in U0
+    Pk = P.fork()
+    Pk.fresh('k1', INT)
+    Pk.assume('k1-range', "0 <= k1 < len(t.inputs)")
+    rk = Pk.let('rk', "t.inputs[k1].output_reference")
+    Pk.have('c-input-in-U0', "rk in U0", using=['refs-in-U0', 'i-range', 'k1-range'])
+    Pk.have('c-input-not-spent-before', NOTSPENT % ("rk", "i"), using=['distinct', 'i-range', 'k1-range'])
+    Pk.inst('ih-b@rk', 'ih-b', rk)
+    Pk.have('c-input-agrees', "rk in Mi and same(Mi[rk], U0[rk])", using=['ih-b@rk', 'c-input-in-U0', 'c-input-not-spent-before'])
+    Pc = P.fork()
+    Pc.forall_intro('agree', "all(same(U0[x.output_reference], Mi[x.output_reference]) for x in t.inputs)", proved_by='c-input-agrees')
+    Pc.have('c-inputs-in-U0', "all(x.output_reference in U0 for x in t.inputs)", using=['refs-in-U0', 'i-range'])
+    assert Pc.use('fee', "skepticoin.consensus.get_transaction_fee", transaction=t, unspent_transactions=U0)
+    Pc.inst('total@U0', TX_TOTAL, U0)
+    Pc.have('c-total', "G.total(Mn) <= G.total(U0) + sum(o.value for o in txs[0].outputs) - %s" % (FEES % "i + 1"),
+            using=['total@U0', 'agree', 'ih-c', 'fee', 'i-range'])
+
+
+@LM.lemma("C02.no-inflation", props=["C02"])
+def c02_no_inflation(v):
+    """For every block accepted by full validation on a state whose parent set has non-negative values:
+         total(unspent set of the block) <= total(unspent set of the parent) + subsidy(height),
+       and with the closed-form cumulative schedule: total <= cumulative subsidy <= 2,099,999,986,350,000."""
+    from pyvc.proof import Proof
+    st, block, cs, now = accepted_block(v)
+    P = Proof(v, st, "C02:lemma:")
+    P.facts['h>horizon'] = v.spec_bool("block.header.summary.height > 163000", st)
+    U = P.let('U0', "coinstate.unspent_transaction_outs_by_hash[prev]")
+    txs = st.frame.vars['txs']
+    P.let('n', "len(txs)")
+    # what the two block validators established (their contracts, instantiated on this block in accepted_block)
+    P.assume('len', "len(txs) >= 1")
+    P.assume('enc', "G.encodable(block)")                           # validate_block_by_itself ensures
+    P.assume('cb-in-state', "G.coinbase_in_state(txs[0], block, coinstate)")
+    P.assume('all-by-itself', "all(G.tx_by_itself(txs[1 + j]) for j in range(len(txs) - 1))")
+    P.assume('no-dup-refs', "G.no_dup_refs(txs[1:])")
+    for nm in ('enc', 'cb-in-state', 'all-by-itself', 'no-dup-refs'):
+        v.oblige(st, P.facts[nm], "C02:lemma:validators-gave:" + nm, "follows from the validators' contracts on an accepted block")
+    assert P.use('cb', CQ + "validate_coinbase_transaction_in_coinstate", transaction=v.spec_value("txs[0]", st), block=block, coinstate=cs)
+    assert P.use('dup', CQ + "validate_no_duplicate_output_references_in_transactions", transactions=v.spec_value("txs[1:]", st))
+    # hypotheses that are invariants of validated chains / named assumptions
+    P.assume('U0-nonneg', NN_TEXT % ("U0", "U0"))                    # Inv: stored unspent sets hold non-negative values
+    P.assume('fresh', "every(OutputReference, lambda r: implies(r in U0, all(t.hash() != r.hash for t in txs)))")   # A-FRESH
+    v.assumptions_used.add('A-FRESH')
+    P.assume('applied', "G.uto_block_ok(U0, block)")                 # the block was applied (add_block_no_validation returned)
+    assert P.use('apply', "skepticoin.balances.uto_apply_block", unspent_transaction_outs=U, block=block)
+    Ub = P.let('Ub', "uto_apply_block(U0, block)")
+    # every output value of the block is >= 0: reward outputs by A-ENC, the others by the stand-alone rules
+    Po = P.fork()
+    Po.fresh('m1', INT)
+    Po.fresh('o1', INT)
+    Po.assume('m1-range', "0 <= m1 < len(txs)")
+    Po.assume('o1-range', "0 <= o1 < len(txs[m1].outputs)")
+    Po.assume('enc@', "G.encodable_fact(block, m1, o1)")
+    Po.have('out-nonneg', "txs[m1].outputs[o1].value >= 0", using=['enc', 'enc@'])
+    P.forall_intro('outs-nonneg', "all(all(o.value >= 0 for o in t.outputs) for t in txs)", proved_by='out-nonneg')
+    # the hypotheses of the induction lemma C02.apply-block-total hold for (U0, txs) ...
+    P.have('distinct', "all(all(all(all((a2 == a and b2 == b) or txs[1 + a].inputs[b].output_reference != txs[1 + a2].inputs[b2].output_reference"
+                       " for b2 in range(len(txs[1 + a2].inputs))) for a2 in range(len(txs) - 1))"
+                       " for b in range(len(txs[1 + a].inputs))) for a in range(len(txs) - 1))", using=['dup[0]', 'len'])
+    P.have('refs-in-U0', "all(all(x.output_reference in U0 for x in txs[1 + a].inputs) for a in range(len(txs) - 1))", using=['cb[4]', 'len'])
+    # ... so its conclusion (c) holds at i = len(txs) - 1 (induction over the transactions, base and step proved there)
+    P.assume('induction', "G.total(G.uto_prefix(U0, txs, len(txs) - 1)) <= G.total(U0) + sum(o.value for o in txs[0].outputs) - %s"
+             % (FEES % "len(txs) - 1"))
+    P.have('all-refs-in-U0', "all(all(i.output_reference in U0 for i in t.inputs) for t in txs[1:])", using=['cb[4]'])
+    assert P.use('fees', CQ + "get_block_fees", non_coinbase_transactions=v.spec_value("txs[1:]", st), unspent_transaction_outs=U)
+    P.have('per-block', "G.total(Ub) <= G.total(U0) + get_block_subsidy(block.header.summary.height)",
+           using=['induction', 'apply[3]', 'cb[3]', 'fees[0]', 'len'])
+    # cumulative: with the parent's total bounded by the schedule up to its height
+    P.assume('parent-bound', "G.total(U0) <= G.cum_subsidy(block.header.summary.height - 1)")
+    assert P.use('sub', CQ + "get_block_subsidy", height=v.spec_value("block.header.summary.height", st))
+    P.have('cumulative', "G.total(Ub) <= G.cum_subsidy(block.header.summary.height)", using=['per-block', 'parent-bound', 'sub[0]', 'h>horizon'])
+    P.have('maximum', "G.total(Ub) <= 2099999986350000", using=['cumulative', 'h>horizon'])
+
+
+@LM.lemma("C16.cumulative", props=["C16", "C02"])
+def c16_cumulative(v):
+    """the closed form G.cum_subsidy is the running sum of the schedule, and never exceeds the documented maximum"""
+    st = _lemma_state(v)
+    h = v.fresh('h', INT)
+    st.frame.vars['h'] = h
+    v.oblige(st, v.spec_bool("G.cum_subsidy(0) == G.era_subsidy(0)", st), "C16:lemma:cum:base", "cum(0) = subsidy(0)")
+    s1 = st.fork().assume(v.spec_bool("h >= 1", st))
+    v.oblige(s1, v.spec_bool("G.cum_subsidy(h) == G.cum_subsidy(h - 1) + G.era_subsidy(h // %d)" % DOC_HALVING_INTERVAL, s1),
+             "C16:lemma:cum:step", "cum(h) = cum(h-1) + subsidy(h)")
+    s2 = st.fork().assume(v.spec_bool("h >= 0", st))
+    v.oblige(s2, v.spec_bool("G.cum_subsidy(h) <= %d" % DOC_MAX_SUPPLY, s2), "C16:lemma:cum:bounded-by-maximum", "cum(h) <= maximum supply")
